@@ -11,3 +11,7 @@ package rsyncchecksum
 //@   allows[C05,C04] fsread(h) if h == root
 //@   allows[C10] fsread(h)
 //@   ensures [sum-of-file] err == nil ==> bid(result) == rootSum(root, fn)
+
+//@ func rsyncchecksum.ReaderChecksum
+//@   modifies ghost.acc, ghost.objClock, rsyncwire.CountingReader.BytesRead, rsyncwire.CountingWriter.BytesWritten
+//@   ensures [not-a-walk-sentinel] !isSkipDir(err)
